@@ -35,7 +35,25 @@ type reloadIn struct {
 
 // content of version v of file f; a valid version declares two namespaces so
 // that a partial load is visible.
+// bigFiller is more than a megabyte of comment lines.
+var bigFiller = strings.Repeat("// "+strings.Repeat("x", 96)+"\n", 12000)
+
 func reloadContent(variant, f string, v int, valid bool) string {
+	s := reloadContentSmall(variant, f, v, valid)
+	if valid && v%3 == 2 {
+		// a large version: the second namespace (or the only key) comes after more than a megabyte of comments
+		switch variant {
+		case "opl":
+			i := strings.Index(s, "\n") + 1
+			return s[:i] + bigFiller + s[i:]
+		case "yaml":
+			return strings.ReplaceAll(bigFiller, "//", "#") + s
+		}
+	}
+	return s
+}
+
+func reloadContentSmall(variant, f string, v int, valid bool) string {
 	a, b := fmt.Sprintf("%s_%d_x", f, v), fmt.Sprintf("%s_%d_y", f, v)
 	switch variant {
 	case "opl":
